@@ -36,8 +36,8 @@ type c07 struct{ cache map[string][]C07Scenario }
 
 func init() { register(&c07{cache: map[string][]C07Scenario{}}) }
 
-func (*c07) ID() string                      { return "C07" }
-func (*c07) Level() string                   { return "fault_enumeration" }
+func (*c07) ID() string                     { return "C07" }
+func (*c07) Level() string                  { return "fault_enumeration" }
 func (*c07) Decode(raw []byte) (any, error) { return decodeInto[C07Scenario](raw) }
 
 var c07AuthTypes = []string{"", "PLAIN", "LOGIN", "PLAIN-NOENC", "LOGIN-NOENC", "CRAM-MD5", "XOAUTH2", "SCRAM-SHA-1", "SCRAM-SHA-256", "SCRAM-SHA-1-PLUS", "SCRAM-SHA-256-PLUS", "AUTODISCOVER", "NOAUTH", "CUSTOM-PLAIN", "CUSTOM-LOGIN"}
